@@ -5,7 +5,7 @@ from props.framelib import *
 RULE = ("MC: Stream spec, all toy streams up to length 7 (quick) / 8 (thorough) x all chunkings x all interleavings of Feed and "
         "ScanStep: ChunkInv, PrefixInv, pending = unconsumed, liveness <>[]Quiescent; NEG variant (skip-incomplete scanner) refuted; GEN->replay: TLC simulates the Stream spec in the REAL profile (streams assembled from frame / corrupted / truncated / stray / long-header / garbage / nested pieces, cut sizes {1,2,3,5,6,7,11,46,rest}, free interleaving of Feed and Scan) and every behaviour is stepped through the real next_msg_frame, each call compared with the spec-computed result; TV: streaming sessions on the real next_msg_frame with the caller protocol of the "
         "property (extend / drain consumed), chunk styles {1 byte, tiny, random, mixed+lazy scanning}; every Feed/Scan/End event "
-        "must be a Stream step and End must equal WholeScan(stream); non-trivial = session whose stream holds a 0xD3 and "
+        "must be a Stream step and End must equal WholeScan(stream); Link: MC of the composition sender -> noise -> chunked receiver in the toy profile (safety, all-delivered, liveness) and TV of end-to-end sessions (real MessageBuilder frames of all message types interleaved with noise and arbitrary chunking, delivered frames decoded); non-trivial = session whose stream holds a 0xD3 and "
         "is cut into >= 2 chunks; distinct = distinct (stream, chunking)")
 
 
@@ -41,6 +41,13 @@ def run(chk):
     r = tv("Trace_Stream", "Trace_Stream.cfg", t, reset_events=("StreamInit",), shards=10, tag="C06")
     chk.add_tv("stream", r)
     report_rejects(chk, r, sig, lambda ev, d: "a recorded streaming session is not a behaviour of the Stream specification (first bad event: %s)" % json.dumps(ev)[:200])
+    # Link: the end-to-end composition (sender frames payloads, noise without preamble bytes, chunked receiver)
+    chk.add_mc(mc("MC_Link", "MC_Link.cfg" if q else "MC_Link_thorough.cfg", workers=8, timeout=3000))
+    tl = record("link", chk.path("link.ndjson"), n=120 if q else 2500, seed=chk.seed)
+    rl = tv("Trace_Link", "Trace_Link.cfg", tl, reset_events=("LinkInit",), shards=10, tag="C06-link")
+    chk.add_tv("link", rl)
+    report_rejects(chk, rl, lambda ev, d: "Link session rejected at %s event" % ev["ev"],
+                   lambda ev, d: "an end-to-end session (real builder -> channel -> real scanner/decoder) is not a behaviour of the Link specification (first bad event: %s)" % json.dumps(ev)[:200])
     nontriv = set()
     delivered = 0
     cur = None
